@@ -5,7 +5,7 @@ import json, os, subprocess, sys, glob, time
 sys.path.insert(0, os.path.dirname(os.path.abspath(__file__)))
 import mutest
 
-out = {}
+out = json.load(open('/verif/seeded/REGRESSION.json')) if (len(sys.argv) > 1 and os.path.exists('/verif/seeded/REGRESSION.json')) else {}
 ids = sorted(d for d in os.listdir("/verif/seeded") if os.path.exists("/verif/seeded/%s/meta.json" % d))
 only = sys.argv[1:]
 for i in ids:
